@@ -399,9 +399,12 @@ class Instance(Component):
                 row: Iterable[int] = map(_flow_or_dist_to_int, line.split())
                 if state == 1:
                     flows.extend(row)
-                    if len(flows) >= n2:
-                        state = 2
+                    if len(flows) < n2:
                         continue
+                    state = 2
+                    # the line may continue with the first distances
+                    row = flows[n2:]
+                    del flows[n2:]
                 dists.extend(row)
                 if len(dists) >= n2:
                     state = 3
